@@ -53,6 +53,33 @@ CHECKS.update({
         design='8 C13', note=RATING_NOTE, technique='TLC-evaluated recommendation rule as oracle; replay over peers x product versions'),
 })
 
+AUDIT_NOTE = ("TLC; the in-process fake network and the reactive fake SSH server (harness/fakenet.py, peers.py); the event vocabulary of TraceAudit.tla "
+              "(connect/sendbanner/send20/send30/send32/send34/readfail/garbled/close/exit) observed at the socket boundary; time is virtual")
+CHECKS.update({
+    'C09': dict(category='model_checking',
+        text=("SshAudit.tla models one audit at connection granularity with the peer as environment; TLC checks ExitDocumented, ReportIffHandshake, "
+              "BoundedWaiting and the liveness property Terminates (weak fairness) for every placement of up to MaxFaults faults over every read of every "
+              "connection of a family of server archetypes. Conformance: byte-level refinements of those faults (truncation, length fields, types, random bytes, "
+              "debug/pre-banner/segmentation) are injected at every message of three archetype transcripts, the real CLI is run, the direct clauses are checked "
+              "and the recorded network trace is validated by TLC against TraceAudit.tla, which infers the failing read and evaluates every invariant at every step."),
+        design='8 C09', note=AUDIT_NOTE, technique='TLC model checking (safety + liveness) of SshAudit.tla; fault-injected runs validated as traces against TraceAudit.tla'),
+    'C11': dict(category='model_checking',
+        text=("Thresholds, monotonicity and RSA-family fan-out are operators/invariants of SshRating.tla (SizeMonotone, Thresholds) and SshAudit.tla (RsaFanOut, one "
+              "probe per family) checked by TLC; the expected size suffix, notes and JSON fields of every measured case come from TLC, the presented blobs from an "
+              "independent encoder, fingerprints from hashlib (outside TLA+); the probing runs are validated as traces against TraceAudit.tla."),
+        design='8 C11, 9', note=AUDIT_NOTE + '; RSA sizes are multiples of 16 bits; hash values via hashlib', technique='TLC-evaluated rating rule as oracle + trace validation of the probe pattern'),
+    'C12': dict(category='model_checking',
+        text=("SshAudit!GexProbe mirrors the probe loop against Group(moduli, style); TLC explores all 9216 servers (512 subsets x 3 styles x 2 banners x 3 algorithm "
+              "sets), checks GexReportRule / NoSizeWhenRefused / GexRequestsFixed and emits each server's request/answer history and reported size; servers are "
+              "replayed through the CLI (all in thorough) comparing requests, answers, shown size, JSON keysize and size notes (texts from SshRating via TLC)."),
+        design='8 C12', note=AUDIT_NOTE + '; the Python group selection is bound to the TLA+ one by comparing every answer', technique='exhaustive TLC exploration of the server family; every terminal state replayed'),
+    'C19': dict(category='model_checking',
+        text=("FootprintBounded, KexReqDiscipline, AllClosedAtExit, ProbesOnlyAfterHandshake are invariants of SshAudit.tla model-checked over the fault family and the "
+              "rate loop (every reply pattern), and evaluated on every state of the recorded network traces of real runs (C09/C11/C12 families, rate-test peers, "
+              "policy and make-policy audits, with and without --skip-rate-test) through TraceAudit.tla."),
+        design='8 C19', note=AUDIT_NOTE, technique='TLC model checking + trace validation of connection logs against TraceAudit.tla'),
+})
+
 NOT_BUILT = {}
 
 
